@@ -54,7 +54,7 @@ type tlcStats struct {
 // accepted runs StreamTrace over all given streams (in parallel chunks, each
 // one TLC process with one worker) and returns the set of streams whose trace
 // the specification with the given constants admits.
-func accepted(scs []*Scenario, lock, stop bool, tag string, st *tlcStats) map[*Scenario]bool {
+func accepted(scs []*Scenario, lock, stop, atomic bool, tag string, st *tlcStats) map[*Scenario]bool {
 	out := map[*Scenario]bool{}
 	if len(scs) == 0 {
 		return out
@@ -108,9 +108,9 @@ func accepted(scs []*Scenario, lock, stop bool, tag string, st *tlcStats) map[*S
 					buf.WriteByte('\n')
 				}
 			}
-			res, err := vlib.RunTLC(vlib.TLCOpts{Module: "StreamTrace", Config: traceCfg(lock, stop), Workers: 1, DFS: true,
+			res, err := vlib.RunTLC(vlib.TLCOpts{Module: "StreamTrace", Config: traceCfg(lock, stop, atomic), Workers: 1, DFS: true,
 				Data:    map[string][]byte{"trace.ndjson": buf.Bytes()},
-				CfgEdit: constEdit(lock, stop, true),
+				CfgEdit: constEdit(lock, stop, atomic, true),
 				Scratch: vlib.Work("C12", fmt.Sprintf("tv-%s-%d", tag, ci)), Timeout: 25 * time.Minute})
 			if err != nil {
 				vlib.Infra("tlc: %v", err)
@@ -145,19 +145,20 @@ var (
 	reLock = regexp.MustCompile(`(?m)^  LockWrites = \w+`)
 	reStop = regexp.MustCompile(`(?m)^  StopKA = \w+`)
 	reSkip = regexp.MustCompile(`(?m)^  AllowSkip = \w+`)
+	reAtom = regexp.MustCompile(`(?m)^  CloseAtomic = \w+`)
 )
 
 // traceCfg names the configuration file: the strict one is the property,
 // StreamTraceDev.cfg the deviation-tolerant one (its two constants are also
 // set one at a time to tell the two deviations apart).
-func traceCfg(lock, stop bool) string {
-	if lock && stop {
+func traceCfg(lock, stop, atomic bool) string {
+	if lock && stop && atomic {
 		return "StreamTrace.cfg"
 	}
 	return "StreamTraceDev.cfg"
 }
 
-func constEdit(lock, stop, skip bool) func(string) string {
+func constEdit(lock, stop, atomic, skip bool) func(string) string {
 	tf := func(b bool) string {
 		if b {
 			return "TRUE"
@@ -168,6 +169,7 @@ func constEdit(lock, stop, skip bool) func(string) string {
 		cfg = reLock.ReplaceAllString(cfg, "  LockWrites = "+tf(lock))
 		cfg = reStop.ReplaceAllString(cfg, "  StopKA = "+tf(stop))
 		cfg = reSkip.ReplaceAllString(cfg, "  AllowSkip = "+tf(skip))
+		cfg = reAtom.ReplaceAllString(cfg, "  CloseAtomic = "+tf(atomic))
 		return cfg
 	}
 }
@@ -186,7 +188,7 @@ func rejectedAt(s *Scenario, tag string, st *tlcStats) (int, string) {
 		txt = append(txt, string(b))
 	}
 	res, err := vlib.RunTLC(vlib.TLCOpts{Module: "StreamTrace", Config: "StreamTrace.cfg", Workers: 1, DFS: true,
-		Data: map[string][]byte{"trace.ndjson": buf.Bytes()}, CfgEdit: constEdit(true, true, false),
+		Data: map[string][]byte{"trace.ndjson": buf.Bytes()}, CfgEdit: constEdit(true, true, true, false),
 		Scratch: vlib.Work("C12", "diag-"+tag), Timeout: 10 * time.Minute})
 	if err != nil {
 		vlib.Infra("tlc: %v", err)
